@@ -10,8 +10,18 @@
 //   2. P phases. In each phase n worker threads (2..16) hammer ONE JitAllocator and ONE JitRuntime; a walker
 //      thread calls hook H2 on both allocators (it takes the allocator's own lock); m emitter threads generate
 //      programs with private CodeHolder/Assembler/Builder/Compiler objects and compare bytes with (1).
+//      In the same phase: "private" threads create, use and destroy their OWN JitAllocator / JitRuntime objects (first
+//      block creation, dual mapping, destructor's hard reset happen concurrently in unrelated objects); reader threads
+//      do nothing but query()/statistics() on pointers taken from lock-free rings (they never touch a harness mutex,
+//      so an unlocked write in a mutator path is unordered with them whatever the timing); sentinel threads own plain
+//      file descriptors and verify that nobody else closes or replaces them.
 //   3. After the joins of every phase the main thread checks the quiescent state: H2, statistics against the
 //      union of the live sets, contents of every live span.
+//
+// Process-wide resources behind the API (there is no shared mutable state "once the host information is initialised"):
+// every close() that libasmjit.a issues is routed through __wrap_close (linker option --wrap=close) and must name a
+// descriptor that is open and is not owned by a harness thread; in the asan flavour mmap()/munmap() are wrapped the same
+// way: AsmJit may only unmap what it mapped, and nothing may stay mapped when every allocator is gone.
 #include <asmjit/core.h>
 #include <asmjit/x86.h>
 #include <asmjit/a64.h>
@@ -21,8 +31,13 @@
 #include <atomic>
 #include <mutex>
 #include <thread>
+#include <errno.h>
+#include <fcntl.h>
 #include <sched.h>
+#include <sys/mman.h>
+#include <sys/stat.h>
 #include <time.h>
+#include <unistd.h>
 
 using namespace asmjit;
 
@@ -85,11 +100,102 @@ static void fail(const std::string& key, const std::string& what) {
   if (g_viol.size() < 40) g_viol.push_back({key, what + " cfg=" + g_cfg_desc});
 }
 
+// -- process-wide resources: file descriptors and address space ------------------------------------------------
+// Linked with -Wl,--wrap=close (both flavours) and -Wl,--wrap=mmap,--wrap=munmap (asan flavour, VERIF_TRACK_MAPS): all
+// references from this file and from libasmjit.a go through the wrappers; the harness calls __real_* for its own needs.
+
+extern "C" int __real_close(int fd);
+static std::atomic<bool> g_concurrent {false};         // worker threads are running
+static std::atomic<uint64_t> g_closes_seen {0}, g_closes_seen_concurrent {0};
+static const int kFdTrack = 8192;
+static std::atomic<int> g_fd_owner[kFdTrack];          // descriptors owned by harness sentinel threads: sentinel id + 1
+
+extern "C" int __wrap_close(int fd) {
+  g_closes_seen.fetch_add(1, std::memory_order_relaxed);
+  if (g_concurrent.load(std::memory_order_relaxed)) {
+    g_closes_seen_concurrent.fetch_add(1, std::memory_order_relaxed);
+    int saved = errno;
+    int fl = fcntl(fd, F_GETFD);
+    if (fl == -1 && errno == EBADF) {
+      char b[300];
+      snprintf(b, sizeof b, "AsmJit called close(%d) while other threads were running, but descriptor %d is not open in this process (already closed: the number can "
+               "belong to any other thread by now - another allocator's anonymous memory, an unrelated file)", fd, fd);
+      fail("fd-table:close-of-descriptor-not-open", b);
+    }
+    else if (fd >= 0 && fd < kFdTrack && g_fd_owner[fd].load(std::memory_order_acquire) != 0) {
+      char b[200];
+      snprintf(b, sizeof b, "AsmJit called close(%d): the descriptor was opened by harness sentinel thread %d and is still in use there", fd, g_fd_owner[fd].load() - 1);
+      fail("fd-table:close-of-foreign-descriptor", b);
+    }
+    errno = saved;
+  }
+  return __real_close(fd);
+}
+
+static std::atomic<uint64_t> g_maps_made {0}, g_unmaps_made {0}, g_map_bytes_now {0};
+#if defined(VERIF_TRACK_MAPS)
+extern "C" void* __real_mmap(void* addr, size_t len, int prot, int flags, int fd, off_t off);
+extern "C" int __real_munmap(void* addr, size_t len);
+static std::mutex g_map_mutex;
+static std::map<uintptr_t, size_t> g_maps;              // regions mapped through libasmjit.a and not unmapped yet
+
+extern "C" void* __wrap_mmap(void* addr, size_t len, int prot, int flags, int fd, off_t off) {
+  void* p = __real_mmap(addr, len, prot, flags, fd, off);
+  if (p != MAP_FAILED) {
+    std::lock_guard<std::mutex> g(g_map_mutex);
+    g_maps[(uintptr_t)p] = len;
+    g_maps_made.fetch_add(1, std::memory_order_relaxed);
+    g_map_bytes_now.fetch_add(len, std::memory_order_relaxed);
+  }
+  return p;
+}
+
+extern "C" int __wrap_munmap(void* addr, size_t len) {
+  bool owned = false;
+  {
+    std::lock_guard<std::mutex> g(g_map_mutex);          // forget the region BEFORE it can be handed to another thread
+    uintptr_t a = (uintptr_t)addr;
+    auto it = g_maps.upper_bound(a);
+    if (it != g_maps.begin()) {
+      --it;
+      uintptr_t lo = it->first, hi = lo + it->second;
+      if (a >= lo && a + len <= hi && len) {
+        owned = true;
+        g_maps.erase(it);
+        if (lo < a) g_maps[lo] = a - lo;
+        if (a + len < hi) g_maps[a + len] = hi - (a + len);
+        g_map_bytes_now.fetch_sub(len, std::memory_order_relaxed);
+      }
+    }
+  }
+  g_unmaps_made.fetch_add(1, std::memory_order_relaxed);
+  if (!owned) {
+    char b[240];
+    snprintf(b, sizeof b, "AsmJit called munmap(%p, %zu) but no mapping it created (and has not unmapped yet) covers that range: the memory can belong to any other thread", addr, len);
+    fail("address-space:unmap-of-memory-not-mapped-by-asmjit", b);
+  }
+  return __real_munmap(addr, len);
+}
+#endif
+
 // -- global interval set (API-boundary monitor) --------------------------------------------------------------
 // Updated AFTER alloc/add returned and BEFORE release is called, and lowered to the guaranteed remainder BEFORE a
 // shrink is called, so that at every moment every registered interval is memory the allocator has promised to
 // its owner: two registered intervals that intersect are an overlap the allocator produced.
 
+// In the tsan flavour the set is compiled out: its mutex would order every pair of worker operations (happens-before
+// through the harness), and ThreadSanitizer would then only see races that overlap within one operation.
+#if defined(__SANITIZE_THREAD__)
+struct Intervals {
+  std::map<uintptr_t, std::pair<uintptr_t, int>> s;
+  uint64_t checks = 0;
+  int add(uintptr_t, uintptr_t, int, uintptr_t*, uintptr_t*) { return -1; }
+  void remove(uintptr_t) {}
+  void lower(uintptr_t, uintptr_t) {}
+  int raise(uintptr_t, uintptr_t, int, uintptr_t*, uintptr_t*) { return -1; }
+  void set_owner(uintptr_t, int) {}
+};
+#else
 struct Intervals {
   std::mutex m;
   std::map<uintptr_t, std::pair<uintptr_t, int>> s;   // start -> (end, owner tid)
@@ -135,6 +241,7 @@ struct Intervals {
     if (it != s.end()) it->second.second = tid;
   }
 };
+#endif
 
 static Intervals g_rx, g_rw;
 
@@ -143,6 +250,7 @@ static Intervals g_rx, g_rw;
 struct Config {
   uint32_t options = 0, granularity = 0, block_size = 0;
   uint32_t rt_options = 0;
+  uint32_t fill_pattern = 0;      // used with kCustomFillPattern (0x10000000) in `options`
   int profile = 0;
   int noise = 2;
   uint64_t seed = 1;
@@ -156,8 +264,12 @@ struct Shared {
   uint32_t gran = 64;
   uint32_t rt_gran = 64;
   bool fill = false, dual = false, rt_dual = false;
-  uint32_t pattern = 0;
+  uint32_t pattern = 0;           // the pattern that was REQUESTED (custom) or that a default allocator reports
   uint32_t block_size = 0;
+  size_t pools = 1, rt_pools = 1;
+  bool imm = false, rt_imm = false;
+  void* anchor = nullptr;         // a function in the runtime's memory that is never released (near target for calls)
+  uint32_t default_pattern = 0;   // what a default-constructed allocator reports
 };
 
 static Shared S;
@@ -183,6 +295,9 @@ static std::vector<Owned> g_exchange;
 
 // recently released addresses, shared (for query_foreign); plain atomics, harness only
 static std::atomic<uintptr_t> g_recent[64];
+// recently allocated spans / runtime functions, published by their owners with relaxed stores and read by the reader
+// threads (no harness mutex anywhere on that path)
+static std::atomic<uintptr_t> g_pub[64], g_pub_fn[32];
 
 static void stamp(std::vector<uint8_t>& buf, uint64_t id) {
   uint64_t x = id * 0x9E3779B97F4A7C15ull + 0xC11;
@@ -197,8 +312,10 @@ static void stamp(std::vector<uint8_t>& buf, uint64_t id) {
 struct Counters {
   uint64_t ops[OP_COUNT] {};
   uint64_t bytes_verified = 0, fill_checked = 0, fn_calls = 0, exchanged = 0, yields = 0, sleeps = 0;
-  uint64_t emit[8] {};
+  uint64_t emit[12] {};
   uint64_t emit_log_compared = 0;
+  uint64_t rt_near_call_adds = 0, rt_real_shrinks = 0;
+  uint64_t emit_validated = 0, emit_api_probes = 0, emit_with_features = 0, emit_multi_section = 0, emit_const_pool = 0, emit_jump_table = 0;
 };
 
 // -- worker --------------------------------------------------------------------------------------------------
@@ -342,6 +459,7 @@ struct Worker {
     live_bytes += s.size();
     live.push_back(std::move(o));
     verify(live.back(), "after-stamp");
+    g_pub[r.below(64)].store((uintptr_t)s.rx(), std::memory_order_relaxed);
   }
 
   void drop(size_t i) {
@@ -554,6 +672,18 @@ struct Worker {
     uint32_t value = uint32_t(r.next()) | 1u;
     a.mov(x86::eax, value);
     a.ret();
+    // 1 program in 3 carries (dead) calls/jumps to an absolute address inside the runtime's own memory: add() reserves an
+    // address-table slot for each, relocation finds the target within +-2 GiB and drops the slots, so that add() really
+    // shrinks the span it allocated by one or more granules while other threads allocate/query/release next to it.
+    size_t near_calls = 0;
+    if (S.anchor && r.chance(1, 3)) {
+      near_calls = 9 + r.below(40);
+      // (one slot per DISTINCT target address: every call gets its own)
+      for (size_t i = 0; i < near_calls; i++) {
+        uint64_t target = uint64_t(uintptr_t(S.anchor)) + 16 * i;
+        if (r.chance(1, 2)) a.call(Imm(target)); else a.jmp(Imm(target));
+      }
+    }
     size_t pad = r.below(4) == 0 ? r.below(700) : r.below(40);
     std::vector<uint8_t> padding(pad);
     for (size_t i = 0; i < pad; i++) padding[i] = uint8_t(value >> ((i & 3) * 8)) ^ uint8_t(i);
@@ -571,7 +701,7 @@ struct Worker {
     f.fn = (void*)fn;
     f.value = value;
     f.code.assign(code.text_section()->data(), code.text_section()->data() + code.text_section()->buffer_size());
-    if (f.code.size() != n) { fail("harness:rt-code-size", "text size != code size in the runtime test function"); return; }
+    if (f.code.size() > n || (!near_calls && f.code.size() != n)) { fail("harness:rt-code-size", "text size does not fit the code size in the runtime test function"); return; }
     // size of the span comes from the allocator itself
     JitAllocator::Span q;
     uint64_t u0 = now_ns();
@@ -581,9 +711,15 @@ struct Worker {
     rec(R_QUERY, u0, u1);
     char b[300];
     if (eq != Error::kOk || q.rx() != (void*)fn || q.size() < n || q.size() % S.rt_gran || q.size() - n >= S.rt_gran * 4u) {
-      snprintf(b, sizeof b, "query(%p) of a function just added (code size %zu) gave error=%d rx=%p size=%zu", (void*)fn, n, (int)eq, q.rx(), q.size());
+      snprintf(b, sizeof b, "query(%p) of a function just added (code size %zu, %zu near calls) gave error=%d rx=%p size=%zu", (void*)fn, n, near_calls, (int)eq, q.rx(), q.size());
       fail("rt-query-mismatch", b);
       if (eq != Error::kOk || q.rx() != (void*)fn || q.size() < n) { S.rt->release(fn); return; }
+    }
+    if (near_calls) {
+      c.rt_near_call_adds++;
+      // what add() had to allocate before it knew that the targets are near: text + one 8-byte slot per target
+      size_t estimated = ((f.code.size() + 7) & ~size_t(7)) + 8 * near_calls;
+      if (n + 8 * near_calls <= estimated + 8 && q.size() + S.rt_gran <= ((estimated + S.rt_gran - 1) / S.rt_gran) * S.rt_gran) c.rt_real_shrinks++;
     }
     f.rx = (uintptr_t)q.rx(); f.rw = (uintptr_t)q.rw(); f.span_size = q.size();
     uintptr_t lo, hi;
@@ -594,6 +730,7 @@ struct Worker {
       return;
     }
     if (f.rw != f.rx) g_rw.add(f.rw, f.rw + f.span_size, tid, &lo, &hi);
+    g_pub_fn[r.below(32)].store(f.rx, std::memory_order_relaxed);
     fns.push_back(std::move(f));
     check_fn(fns.back(), "after-add");
   }
@@ -725,10 +862,12 @@ struct Worker {
 
 // -- independent code generation -----------------------------------------------------------------------------
 
-enum EmitKind { E_X64_ASM, E_X86_ASM, E_X64_BUILDER, E_X64_COMPILER, E_A64_ASM, E_A64_COMPILER, E_X86_COMPILER, E_KINDS };
-static const char* kEmitNames[E_KINDS] = { "x64-assembler", "x86-assembler", "x64-builder", "x64-compiler", "a64-assembler", "a64-compiler", "x86-compiler" };
+enum EmitKind { E_X64_ASM, E_X86_ASM, E_X64_BUILDER, E_X64_COMPILER, E_A64_ASM, E_A64_COMPILER, E_X86_COMPILER,
+                E_A64_BUILDER, E_X86_BUILDER, E_X64_COMPILER_HOST, E_KINDS };
+static const char* kEmitNames[E_KINDS] = { "x64-assembler", "x86-assembler", "x64-builder", "x64-compiler", "a64-assembler", "a64-compiler", "x86-compiler",
+                                           "a64-builder", "x86-builder", "x64-compiler-host-features" };
 
-static void gen_x86(x86::Emitter* e, uint64_t v, bool is64) {
+static void gen_x86(x86::Emitter* e, uint64_t v, bool is64, bool data_section = false) {
   Rng r(0xC1100000ull + v);
   uint32_t nreg = is64 ? 16 : 8;
   auto rid = [&]() { uint32_t i; do { i = uint32_t(r.below(nreg)); } while (i == 4); return i; };   // never rsp/esp
@@ -742,8 +881,11 @@ static void gen_x86(x86::Emitter* e, uint64_t v, bool is64) {
   };
   Label L[4];
   bool bound[4] {};
-  for (auto& l : L) l = e->new_label();
-  Label data = e->new_label();
+  for (size_t j = 0; j < 4; j++) {
+    if (data_section && j == 3) { char nm[32]; snprintf(nm, sizeof nm, "L_named_%u", unsigned(v)); L[j] = e->new_named_label(nm); }
+    else L[j] = e->new_label();
+  }
+  Label data = data_section ? e->new_named_label("verif_data") : e->new_label();
   size_t n = 24 + r.below(48);
   for (size_t i = 0; i < n; i++) {
     switch (r.below(18)) {
@@ -769,16 +911,22 @@ static void gen_x86(x86::Emitter* e, uint64_t v, bool is64) {
   }
   for (size_t j = 0; j < 4; j++) if (!bound[j]) e->bind(L[j]);
   e->ret();
+  if (data_section) {
+    // the data blob lives in a second section: `lea reg, [data]` becomes a cross-section fixup resolved after flatten()
+    Section* sec = nullptr;
+    if (e->code()->new_section(Out(sec), ".vdata", SIZE_MAX, SectionFlags::kNone, 16, 1) == Error::kOk) e->section(sec);
+  }
   e->align(AlignMode::kData, 8);
   e->bind(data);
   uint8_t blob[48];
   for (size_t i = 0; i < sizeof blob; i++) blob[i] = uint8_t(r.next());
   e->embed(blob, 8 + r.below(40));
+  if (data_section) e->embed_label(L[0]);           // an absolute label address: a relocation record
 }
 
 static int verif_callee(int a, int b) { return a + b; }
 
-static void gen_x86_compiler(x86::Compiler& cc, uint64_t v) {
+static void gen_x86_compiler(x86::Compiler& cc, uint64_t v, bool extras = false, bool avx = false) {
   Rng r(0xC1200000ull + v);
   FuncNode* f = cc.add_func(FuncSignature::build<int, int, int, void*>());
   x86::Gp a = cc.new_gp32("a"), b = cc.new_gp32("b"), p = cc.new_gp_ptr("p");
@@ -822,15 +970,61 @@ static void gen_x86_compiler(x86::Compiler& cc, uint64_t v) {
     in->set_arg(1, vars[nv - 1]);
     in->set_ret(0, vars[0]);
   }
+  Label table, case0, case1, join;
+  if (extras) {
+    // constants from the local and the global constant pool, vector values that live across the call / the loop (spilled
+    // with SSE or AVX moves depending on the CPU features the code holder was initialised with), and a jump table with a
+    // jump annotation
+    Rng x(0xC1250000ull + v);
+    x86::Mem c0 = cc.new_int32_const(ConstPoolScope::kLocal, int32_t(x.below(100000)));
+    x86::Mem c1 = cc.new_int32_const(ConstPoolScope::kGlobal, int32_t(x.below(100000)));
+    uint8_t blob[16];
+    for (auto& bb : blob) bb = uint8_t(x.next());
+    x86::Mem c2 = cc.new_const(ConstPoolScope::kGlobal, blob, 16);
+    cc.add(vars[0], c0);
+    cc.xor_(vars[nv - 1], c1);
+    size_t nvec = 3 + x.below(18);
+    std::vector<x86::Vec> vv;
+    for (size_t i = 0; i < nvec; i++) {
+      x86::Vec q = cc.new_xmm("q%u", unsigned(i));
+      if (avx) { cc.vmovups(q, c2); cc.vpaddd(q, q, xv); } else { cc.movups(q, c2); cc.paddd(q, xv); }
+      vv.push_back(q);
+    }
+    for (size_t i = 0; i < nvec; i++) { if (avx) cc.vpxor(xv, xv, vv[i]); else cc.pxor(xv, vv[i]); }
+    cc.movaps(slot, xv);
+    table = cc.new_label(); case0 = cc.new_label(); case1 = cc.new_label(); join = cc.new_label();
+    x86::Gp off = cc.new_gp_ptr("off"), tgt = cc.new_gp_ptr("tgt"), sel = cc.new_gp_ptr("sel");
+    cc.mov(sel.r32(), vars[0]);
+    cc.and_(sel.r32(), 1);
+    cc.lea(off, x86::ptr(table));
+    if (cc.is_64bit()) cc.movsxd(tgt, x86::dword_ptr(off, sel, 2)); else cc.mov(tgt, x86::dword_ptr(off, sel, 2));
+    cc.add(tgt, off);
+    JumpAnnotation* ann = cc.new_jump_annotation();
+    ann->add_label(case0);
+    ann->add_label(case1);
+    cc.jmp(tgt, ann);
+    cc.bind(case0);
+    cc.add(vars[0], 3);
+    cc.jmp(join);
+    cc.bind(case1);
+    cc.sub(vars[0], 5);
+    cc.bind(join);
+  }
   cc.dec(cnt);
   cc.jnz(loop);
   for (size_t i = 0; i < nv; i++) cc.add(a, vars[i]);
   cc.ret(a);
   cc.end_func();
+  if (extras) {
+    cc.bind(table);
+    cc.embed_label_delta(case0, table, 4);
+    cc.embed_label_delta(case1, table, 4);
+  }
   (void)verif_callee;
 }
 
-static void gen_a64(a64::Assembler& a, uint64_t v) {
+static void gen_a64(a64::Emitter* ap, uint64_t v) {
+  a64::Emitter& a = *ap;
   Rng r(0xC1300000ull + v);
   auto xr = [&]() { return a64::x(uint32_t(r.below(29))); };
   auto wr = [&]() { return a64::w(uint32_t(r.below(29))); };
@@ -887,57 +1081,182 @@ static void gen_a64_compiler(a64::Compiler& cc, uint64_t v) {
   cc.end_func();
 }
 
-struct Generated { bool ok = false; int err = 0; std::vector<uint8_t> bytes; std::string text; };
+struct Generated { bool ok = false; int err = 0; std::vector<uint8_t> bytes; std::string text; uint64_t api_hash = 0; };
+
+// Stateless query API (instruction database lookups, validation, RW information, CPU features, name <-> id): the answers
+// for a fixed list of instructions are folded into one hash per (architecture, variant) - a cache or scratch buffer shared
+// between threads behind these functions shows up as a different hash (and as a ThreadSanitizer report in that flavour).
+static uint64_t api_probe(Arch arch, uint64_t v) {
+  uint64_t h = 1469598103934665603ull;
+  auto mix = [&](uint64_t x) { h = fnv1a(&x, sizeof x, h); };
+  Rng r(0xC1500000ull + v);
+  struct Case { InstId id; Operand ops[4]; uint32_t n; };
+  std::vector<Case> cases;
+  if (arch == Arch::kAArch64) {
+    auto xr = [&]() { return a64::x(uint32_t(r.below(29))); };
+    cases.push_back({a64::Inst::kIdAdd, {xr(), xr(), xr()}, 3});
+    cases.push_back({a64::Inst::kIdAdd, {a64::w(uint32_t(r.below(29))), a64::w(1), Imm(r.below(4096))}, 3});
+    cases.push_back({a64::Inst::kIdLdr, {xr(), a64::ptr(xr(), int32_t(r.below(64)) * 8)}, 2});
+    cases.push_back({a64::Inst::kIdStr, {a64::w(3), a64::ptr(xr(), 16)}, 2});
+    cases.push_back({a64::Inst::kIdMadd, {xr(), xr(), xr(), xr()}, 4});
+    cases.push_back({a64::Inst::kIdAdd_v, {a64::v(uint32_t(r.below(32))).s4(), a64::v(1).s4(), a64::v(2).s4()}, 3});
+    cases.push_back({a64::Inst::kIdFmla_v, {a64::v(uint32_t(r.below(32))).d2(), a64::v(7).d2(), a64::v(9).d2()}, 3});
+    cases.push_back({a64::Inst::kIdLdp, {xr(), xr(), a64::ptr(a64::sp, 32)}, 3});
+    cases.push_back({a64::Inst::kIdCmp, {xr(), xr()}, 2});
+    cases.push_back({a64::Inst::kIdAdd, {xr(), a64::v(1).s4(), xr()}, 3});           // invalid on purpose
+    cases.push_back({a64::Inst::kIdLdr, {xr(), xr()}, 2});                            // invalid on purpose
+  }
+  else {
+    bool is64 = arch == Arch::kX64;
+    uint32_t nreg = is64 ? 16 : 8;
+    auto g32 = [&]() { return x86::gpd(uint32_t(r.below(nreg))); };
+    auto gz = [&]() { uint32_t i = uint32_t(r.below(nreg)); return is64 ? x86::Gp(x86::gpq(i)) : x86::Gp(x86::gpd(i)); };
+    auto vid = [&]() { return uint32_t(r.below(nreg)); };
+    cases.push_back({x86::Inst::kIdAdd, {g32(), g32()}, 2});
+    cases.push_back({x86::Inst::kIdMov, {gz(), x86::ptr(gz(), int32_t(r.below(256)))}, 2});
+    cases.push_back({x86::Inst::kIdLea, {gz(), x86::ptr(gz(), gz(), 2, 8)}, 2});
+    cases.push_back({x86::Inst::kIdImul, {g32(), g32(), Imm(int32_t(r.below(1000)))}, 3});
+    cases.push_back({x86::Inst::kIdMovzx, {g32(), x86::byte_ptr(gz())}, 2});
+    cases.push_back({x86::Inst::kIdMovaps, {x86::xmm(vid()), x86::xmm(vid())}, 2});
+    cases.push_back({x86::Inst::kIdVaddps, {x86::ymm(vid()), x86::ymm(vid()), x86::ymm(vid())}, 3});
+    cases.push_back({x86::Inst::kIdVpaddd, {x86::zmm(vid()), x86::zmm(vid()), x86::zmm(vid())}, 3});
+    cases.push_back({x86::Inst::kIdVfmadd231ps, {x86::xmm(vid()), x86::xmm(vid()), x86::ptr(gz(), 16)}, 3});
+    cases.push_back({x86::Inst::kIdVpslldq, {x86::xmm(vid()), x86::xmm(vid()), Imm(3)}, 3});
+    cases.push_back({x86::Inst::kIdXchg, {g32(), g32()}, 2});
+    cases.push_back({x86::Inst::kIdCmpxchg, {x86::dword_ptr(gz()), g32(), x86::eax}, 3});
+    cases.push_back({x86::Inst::kIdShl, {g32(), x86::cl}, 2});
+    cases.push_back({x86::Inst::kIdDiv, {x86::edx, x86::eax, g32()}, 3});
+    cases.push_back({x86::Inst::kIdPush, {gz()}, 1});
+    cases.push_back({x86::Inst::kIdVgatherdps, {x86::xmm(1), x86::ptr(gz(), x86::xmm(2)), x86::xmm(3)}, 3});
+    cases.push_back({x86::Inst::kIdAdc, {g32(), Imm(5)}, 2});
+    cases.push_back({x86::Inst::kIdMov, {x86::xmm(1), g32()}, 2});                    // invalid on purpose
+    cases.push_back({x86::Inst::kIdVaddps, {x86::ymm(1), x86::xmm(2), x86::zmm(3)}, 3}); // invalid on purpose
+    if (is64) cases.push_back({x86::Inst::kIdMov, {x86::r9, Imm(int64_t(r.next()))}, 2});
+    else cases.push_back({x86::Inst::kIdMov, {x86::gpq(1), x86::gpq(2)}, 2});        // 64-bit registers in 32-bit mode
+  }
+  for (const Case& cs : cases) {
+    BaseInst inst(cs.id);
+    Error ev = InstAPI::validate(arch, inst, cs.ops, cs.n, r.chance(1, 2) ? ValidationFlags::kNone : ValidationFlags::kEnableVirtRegs);
+    mix(uint64_t(ev));
+    InstRWInfo rw {};
+    Error er = InstAPI::query_rw_info(arch, inst, cs.ops, cs.n, &rw);
+    mix(uint64_t(er));
+    if (er == Error::kOk) {
+      mix(uint64_t(rw.inst_flags())); mix(uint64_t(rw.read_flags())); mix(uint64_t(rw.write_flags())); mix(rw.rm_feature()); mix(rw.op_count());
+      for (uint32_t i = 0; i < rw.op_count() && i < 6; i++) {
+        const OpRWInfo& o = rw.operand(i);
+        mix(uint64_t(o.op_flags())); mix(o.phys_id()); mix(o.rm_size()); mix(o.read_byte_mask()); mix(o.write_byte_mask()); mix(o.extend_byte_mask());
+        mix(o.consecutive_lead_count());
+      }
+      const OpRWInfo& x = rw.extra_reg();
+      mix(uint64_t(x.op_flags())); mix(x.read_byte_mask()); mix(x.write_byte_mask());
+    }
+    CpuFeatures f {};
+    Error ef = InstAPI::query_features(arch, inst, cs.ops, cs.n, &f);
+    mix(uint64_t(ef));
+    if (ef == Error::kOk) h = fnv1a(&f, sizeof f, h);
+    String name;
+    mix(uint64_t(InstAPI::inst_id_to_string(arch, cs.id, InstStringifyOptions::kNone, name)));
+    h = fnv1a(name.data(), name.size(), h);
+    mix(uint64_t(InstAPI::string_to_inst_id(arch, name.data(), name.size())));
+  }
+  static const char* const names_x86[] = { "add", "adc", "vaddps", "vpternlogd", "mov", "movabs", "lea", "cmpxchg16b", "vfmadd231ps", "kmovw", "tzcnt", "bextr", "sha256rnds2",
+    "aesenc", "vpdpbusd", "prefetchw", "xsaveopt", "jmp", "jecxz", "ret", "int3", "nop", "pause", "popcnt", "crc32", "movbe", "vcvtph2ps", "vpgatherdd", "vpcompressd",
+    "notaninstruction", "", "ADD", "vaddpsx", "rep", "lock", "sysenter", "tdpbssd", "vpmadd52luq", "gf2p8mulb", "pconfig", "rdpid", "wbnoinvd", "cldemote", "movdir64b",
+    "enqcmd", "serialize", "xresldtrk", "uiret", "clui", "vp2intersectd" };
+  static const char* const names_a64[] = { "add", "adds", "ldr", "ldp", "stp", "madd", "fmla", "sqrdmlah", "ldaddal", "casp", "b", "bl", "ret", "cbz", "tbnz", "mrs", "msr",
+    "dmb", "isb", "sha256h", "aese", "pmull2", "fcvtzs", "ucvtf", "bfmmla", "smmla", "ld1", "st4", "tbl", "ext", "notaninstruction", "", "ADD", "movk", "movz", "mov",
+    "csel", "cinc", "ubfx", "ror", "rev16", "crc32cx", "ldxr", "stlxr", "prfm", "hint", "autia", "pacib", "irg", "stg" };
+  const char* const* names = arch == Arch::kAArch64 ? names_a64 : names_x86;
+  for (size_t i = 0; i < 50; i++) {
+    InstId id = InstAPI::string_to_inst_id(arch, names[i], strlen(names[i]));
+    mix(uint64_t(id));
+    if (id != 0) { String back; mix(uint64_t(InstAPI::inst_id_to_string(arch, id, InstStringifyOptions::kNone, back))); h = fnv1a(back.data(), back.size(), h); }
+  }
+  return h;
+}
+
+struct GenFlags { bool validated = false, features = false, multi_section = false, const_pool = false; };
 
 // Everything in here is private to the calling thread.
-static Generated generate(int kind, uint64_t v) {
+static Generated generate(int kind, uint64_t v, GenFlags* gf = nullptr) {
   Generated g;
-  Arch arch = (kind == E_X86_ASM || kind == E_X86_COMPILER) ? Arch::kX86 : (kind == E_A64_ASM || kind == E_A64_COMPILER) ? Arch::kAArch64 : Arch::kX64;
+  bool is_a64 = kind == E_A64_ASM || kind == E_A64_COMPILER || kind == E_A64_BUILDER;
+  bool is_x86_32 = kind == E_X86_ASM || kind == E_X86_COMPILER || kind == E_X86_BUILDER;
+  Arch arch = is_x86_32 ? Arch::kX86 : is_a64 ? Arch::kAArch64 : Arch::kX64;
   CodeHolder code;
   StringLogger logger;
-  Error e = code.init(Environment(arch));
+  // E_X64_COMPILER_HOST: the code holder knows the host's CPU features, so that register allocation and the emit helpers
+  // take their AVX / AVX-512 paths (moves, spills, swaps) when the host has them
+  bool host_features = kind == E_X64_COMPILER_HOST;
+  bool avx = host_features && CpuInfo::host().features().x86().has_avx2();
+  Error e = host_features ? code.init(Environment(arch), CpuInfo::host().features()) : code.init(Environment(arch));
   if (e != Error::kOk) { g.err = int(e); return g; }
   bool with_log = (v % 4) == 1;
+  bool validate = (v % 4) == 2;
+  bool multi_section = (v % 5) == 3 && (kind == E_X64_ASM || kind == E_X86_ASM || kind == E_X64_BUILDER || kind == E_X86_BUILDER);
   if (with_log) {
     logger.add_flags(FormatFlags::kMachineCode | FormatFlags::kHexImms);
     code.set_logger(&logger);
   }
+  if (gf) { gf->validated = validate; gf->features = host_features; gf->multi_section = multi_section; gf->const_pool = host_features || (kind == E_X64_COMPILER && v % 3 == 1); }
+  DiagnosticOptions diag = validate ? (DiagnosticOptions::kValidateAssembler | DiagnosticOptions::kValidateIntermediate) : DiagnosticOptions::kNone;
   switch (kind) {
     case E_X64_ASM: case E_X86_ASM: {
       x86::Assembler a(&code);
-      gen_x86(a.as<x86::Emitter>(), v, kind == E_X64_ASM);
+      a.add_diagnostic_options(diag);
+      gen_x86(a.as<x86::Emitter>(), v, kind == E_X64_ASM, multi_section);
       break;
     }
-    case E_X64_BUILDER: {
+    case E_X64_BUILDER: case E_X86_BUILDER: {
       x86::Builder cb(&code);
-      gen_x86(cb.as<x86::Emitter>(), v, true);
+      cb.add_diagnostic_options(diag);
+      gen_x86(cb.as<x86::Emitter>(), v, kind == E_X64_BUILDER, multi_section);
       e = cb.finalize();
       break;
     }
-    case E_X64_COMPILER: case E_X86_COMPILER: {
+    case E_X64_COMPILER: case E_X86_COMPILER: case E_X64_COMPILER_HOST: {
       x86::Compiler cc(&code);
+      cc.add_diagnostic_options(diag);
       if (with_log) cc.add_diagnostic_options(DiagnosticOptions::kRAAnnotate);
-      gen_x86_compiler(cc, v);
+      gen_x86_compiler(cc, v, host_features || (kind == E_X64_COMPILER && v % 3 == 1), avx);
       e = cc.finalize();
       break;
     }
     case E_A64_ASM: {
       a64::Assembler a(&code);
-      gen_a64(a, v);
+      a.add_diagnostic_options(diag);
+      gen_a64(a.as<a64::Emitter>(), v);
+      break;
+    }
+    case E_A64_BUILDER: {
+      a64::Builder cb(&code);
+      cb.add_diagnostic_options(diag);
+      gen_a64(cb.as<a64::Emitter>(), v);
+      e = cb.finalize();
       break;
     }
     case E_A64_COMPILER: {
       a64::Compiler cc(&code);
+      cc.add_diagnostic_options(diag);
       gen_a64_compiler(cc, v);
       e = cc.finalize();
       break;
     }
   }
+  g.api_hash = api_probe(arch, v);
   if (e != Error::kOk) { g.err = int(e); return g; }
   e = code.flatten();
   if (e == Error::kOk) e = code.resolve_cross_section_fixups();
+  if (e == Error::kOk && code.has_reloc_entries()) {
+    // absolute addresses (embed_label, constant pool references in 32-bit mode): relocate to a fixed base so that the
+    // relocation records themselves are part of what is compared
+    e = code.relocate_to_base(arch == Arch::kX86 ? 0x40000000ull : 0x7F0000400000ull);
+  }
   if (e != Error::kOk) { g.err = int(e); return g; }
   for (Section* sec : code.sections()) {
+    uint64_t off = sec->offset();
+    g.bytes.insert(g.bytes.end(), (const uint8_t*)&off, (const uint8_t*)&off + 8);
     g.bytes.insert(g.bytes.end(), sec->data(), sec->data() + sec->buffer_size());
   }
   if (with_log) g.text.assign(logger.data(), logger.data_size());
@@ -958,9 +1277,18 @@ struct Emitter {
     for (size_t i = 0; i < iters; i++) {
       int kind = int(r.below(E_KINDS));
       uint64_t v = r.below(g_variants);
-      Generated g = generate(kind, v);
+      GenFlags gf;
+      Generated g = generate(kind, v, &gf);
       const Generated& ref = g_reference[kind][v];
       c.emit[kind]++;
+      c.emit_validated += gf.validated; c.emit_with_features += gf.features; c.emit_multi_section += gf.multi_section; c.emit_const_pool += gf.const_pool;
+      c.emit_api_probes++;
+      if (g.api_hash != ref.api_hash) {
+        char b[240];
+        snprintf(b, sizeof b, "%s variant %llu: InstAPI validate/query_rw_info/query_features/name lookups answered differently in thread %d than single-threaded (hash %016llx vs %016llx)",
+                 kEmitNames[kind], (unsigned long long)v, tid, (unsigned long long)g.api_hash, (unsigned long long)ref.api_hash);
+        fail(std::string("emit-differs:inst-api:") + (kind == E_A64_ASM || kind == E_A64_COMPILER || kind == E_A64_BUILDER ? "a64" : "x86"), b);
+      }
       if (g.ok != ref.ok || g.err != ref.err) {
         char b[200];
         snprintf(b, sizeof b, "%s variant %llu: generation ended with ok=%d err=%d in thread %d but ok=%d err=%d single-threaded", kEmitNames[kind], (unsigned long long)v, g.ok, g.err, tid, ref.ok, ref.err);
@@ -987,10 +1315,294 @@ struct Emitter {
   }
 };
 
+// -- reader threads: nothing but query() / statistics(), no harness mutex ---------------------------------------------
+
+struct Reader {
+  int tid;
+  Rng r;
+  std::vector<OpRec> log;
+  uint64_t queries = 0, query_hits = 0, stats = 0;
+  explicit Reader(int t, uint64_t seed) : tid(t), r(seed) {}
+
+  void rec(int op, uint64_t t0, uint64_t t1) { if (log.size() < 200000) log.push_back({t0, t1, uint8_t(op), uint8_t(tid)}); }
+
+  void run(std::atomic<bool>& stop) {
+    while (!stop.load(std::memory_order_relaxed)) {
+      bool on_rt = r.chance(1, 3);
+      const JitAllocator* al = on_rt ? &S.rt->allocator() : S.alloc;
+      uint32_t gran = on_rt ? S.rt_gran : S.gran;
+      if (r.chance(1, 4)) {
+        uint64_t t0 = now_ns();
+        JitAllocator::Statistics st = al->statistics();
+        uint64_t t1 = now_ns();
+        rec(on_rt ? R_STATS : O_STATS, t0, t1);
+        stats++;
+        if (st.reserved_size() < st.used_size() || st.allocation_count() > (size_t(1) << 40) || (st.allocation_count() && !st.block_count()) ||
+            st.used_size() < st.allocation_count() * size_t(gran)) {
+          char b[240];
+          snprintf(b, sizeof b, "statistics() seen by a reader thread: allocations=%zu used=%zu reserved=%zu blocks=%zu (granularity %u)", st.allocation_count(), st.used_size(), st.reserved_size(), st.block_count(), gran);
+          fail("reader:statistics-inconsistent", b);
+        }
+      }
+      else {
+        uintptr_t p = on_rt ? g_pub_fn[r.below(32)].load(std::memory_order_relaxed)
+                            : (r.chance(1, 3) ? g_recent[r.below(64)].load(std::memory_order_relaxed) : g_pub[r.below(64)].load(std::memory_order_relaxed));
+        if (!p) { sched_yield(); continue; }
+        if (r.chance(1, 5)) p += gran * r.below(4);
+        JitAllocator::Span q;
+        uint64_t t0 = now_ns();
+        Error e = al->query(Out(q), (void*)p);
+        uint64_t t1 = now_ns();
+        rec(on_rt ? R_QUERY : O_QUERY_FOREIGN, t0, t1);
+        queries++;
+        if (e == Error::kOk) {
+          query_hits++;
+          uintptr_t qs = (uintptr_t)q.rx();
+          if (!(qs <= p && p < qs + q.size()) || q.size() % gran || q.size() > 0x80000000ull || !q.rw()) {
+            char b[200];
+            snprintf(b, sizeof b, "query(%p) in a reader thread succeeded with rx=%p rw=%p size=%zu, which does not describe a span containing the address", (void*)p, q.rx(), q.rw(), q.size());
+            fail("query-inconsistent-answer", b);
+          }
+        }
+      }
+      if (((queries + stats) & 3) == 0) { timespec ts { 0, long(5000 + r.below(60000)) }; nanosleep(&ts, nullptr); }
+    }
+  }
+};
+
+// -- private threads: their own JitAllocator / JitRuntime, created, used and destroyed inside the thread ----------------
+
+static void gen_tiny_compiled(x86::Compiler& cc, int32_t k) {
+  FuncNode* f = cc.add_func(FuncSignature::build<int, int, int>());
+  x86::Gp a = cc.new_gp32("a"), b = cc.new_gp32("b");
+  f->set_arg(0, a); f->set_arg(1, b);
+  cc.imul(b, b, k);
+  cc.add(a, b);
+  cc.ret(a);
+  cc.end_func();
+}
+
+struct Private {
+  int tid;
+  Rng r;
+  uint64_t allocators = 0, runtimes = 0, allocs = 0, dual_allocs = 0, blocks_cycled = 0, adds_compared = 0, compiled_calls = 0, bytes_verified = 0;
+  explicit Private(int t, uint64_t seed) : tid(t), r(seed) {}
+
+  std::string who() const { return " (private thread " + std::to_string(tid) + ")"; }
+
+  void use_allocator() {
+    static const uint32_t kOpts[] = { 1 | 8, 1 | 4, 1, 8, 0, 1 | 2, 4 | 0x10000000u, 1 | 8 | 4, 1 | 8 };   // DUAL|IMM first and last: every allocation maps a block
+    uint32_t opt = kOpts[r.below(sizeof(kOpts) / sizeof(kOpts[0]))];
+    JitAllocator::CreateParams p;
+    p.options = JitAllocatorOptions(opt);
+    p.fill_pattern = 0x9A8B7C6Du ^ uint32_t(tid);
+    uint32_t want_pattern = (opt & 0x10000000u) ? p.fill_pattern : S.default_pattern;
+    JitAllocator al(&p);
+    allocators++;
+    if (!al.is_initialized()) { fail("private-allocator:not-initialized", "a JitAllocator constructed inside a thread is not initialised" + who()); return; }
+    bool dual = (opt & 1) != 0, fill = (opt & 4) != 0, imm = (opt & 8) != 0;
+    uint32_t gran = al.granularity();
+    struct Mine { JitAllocator::Span span; std::vector<uint8_t> shadow; };
+    std::vector<Mine> mine;
+    size_t rounds = 2 + r.below(10);
+    char b[320];
+    for (size_t k = 0; k < rounds; k++) {
+      if (mine.size() < 3 && (mine.empty() || r.chance(2, 3))) {
+        size_t size = r.chance(1, 4) ? 4096 + r.below(20000) : 1 + r.below(700);
+        JitAllocator::Span s;
+        Error e = al.alloc(Out(s), size);
+        allocs++; dual_allocs += dual;
+        if (e != Error::kOk) {
+          snprintf(b, sizeof b, "alloc(%zu) on a PRIVATE allocator (options %#x) failed with error %d (%s)", size, opt, int(e), DebugUtils::error_as_string(e));
+          fail("private-allocator:alloc-failed", b + who());
+          break;
+        }
+        if (!s.rx() || !s.rw() || (uintptr_t)s.rx() % gran || s.size() < size || dual == (s.rx() == s.rw())) {
+          snprintf(b, sizeof b, "alloc(%zu) on a private allocator (options %#x) returned rx=%p rw=%p size=%zu", size, opt, s.rx(), s.rw(), s.size());
+          fail("private-allocator:bad-span", b + who());
+          break;
+        }
+        if (fill) {
+          const uint8_t* m = (const uint8_t*)s.rx();
+          uint8_t pat[4]; memcpy(pat, &want_pattern, 4);
+          for (size_t i = 0; i < s.size(); i++) if (m[i] != pat[((uintptr_t)m + i) & 3]) {
+            snprintf(b, sizeof b, "fresh span of a private allocator (options %#x) holds %02x at offset %zu, requested pattern %08x", opt, m[i], i, want_pattern);
+            fail("private-allocator:fill-pattern-missing", b + who());
+            break;
+          }
+        }
+        Mine m;
+        m.span = s;
+        m.shadow.resize(s.size());
+        stamp(m.shadow, (uint64_t(tid) << 48) ^ r.next());
+        Error we = al.write(s, 0, m.shadow.data(), s.size());
+        if (we != Error::kOk) { fail("private-allocator:write-failed", "write() into a span of a private allocator failed" + who()); break; }
+        mine.push_back(std::move(m));
+        if (imm && mine.size() == 1) blocks_cycled++;
+      }
+      else {
+        size_t i = r.below(mine.size());
+        if (!check(al, mine[i], opt, "before-release")) break;
+        Error e = al.release(mine[i].span.rx());
+        if (e != Error::kOk) { fail("private-allocator:release-failed", "release() on a private allocator failed" + who()); break; }
+        mine.erase(mine.begin() + i);
+      }
+      if (r.chance(1, 3)) sched_yield();
+      // nobody else can write into the memory of a private allocator: look again after other threads had a chance to run
+      bool ok = true;
+      for (auto& m : mine) ok = ok && check(al, m, opt, "after-yield");
+      if (!ok) break;
+    }
+    JitAllocator::Statistics st = al.statistics();
+    if (!g_failed.load() && st.allocation_count() != mine.size()) {
+      snprintf(b, sizeof b, "private allocator (options %#x) counts %zu allocations, its thread holds %zu", opt, st.allocation_count(), mine.size());
+      fail("private-allocator:allocation-count", b + who());
+    }
+    char msg[300]; size_t info[20];
+    int rc = asmjit_verif_jitallocator_check(&al, msg, sizeof msg, info);
+    if (rc && !g_failed.load()) fail("h2-invariant-" + std::to_string(rc) + ":private", std::string("bookkeeping of a private allocator inconsistent: ") + msg + who());
+    // the destructor (hard reset) gives back what is left
+  }
+
+  template<typename M>
+  bool check(JitAllocator& al, M& m, uint32_t opt, const char* when) {
+    size_t n = m.span.size();
+    bytes_verified += n;
+    if (memcmp(m.span.rx(), m.shadow.data(), n) != 0) {
+      size_t i = 0; const uint8_t* q = (const uint8_t*)m.span.rx();
+      while (q[i] == m.shadow[i]) i++;
+      char b[300];
+      snprintf(b, sizeof b, "the executable view of a span of a PRIVATE allocator (options %#x, rx=%p rw=%p size=%zu) does not hold what its only owner wrote: offset %zu has %02x, written %02x (%s)",
+               opt, m.span.rx(), m.span.rw(), n, i, q[i], m.shadow[i], when);
+      fail(std::string("private-allocator:contents-lost:") + when, b + who());
+      return false;
+    }
+    JitAllocator::Span q;
+    if (al.query(Out(q), m.span.rx()) != Error::kOk || q.rx() != m.span.rx() || q.rw() != m.span.rw() || q.size() != m.span.size()) {
+      fail("private-allocator:query-mismatch", "query() of a live span of a private allocator disagrees with alloc()" + who());
+      return false;
+    }
+    return true;
+  }
+
+  void use_runtime() {
+    static const uint32_t kOpts[] = { 0, 1 | 4, 1 | 8, 1, 8 | 4, 1 | 2 };
+    uint32_t opt = kOpts[r.below(sizeof(kOpts) / sizeof(kOpts[0]))];
+    JitAllocator::CreateParams p;
+    p.options = JitAllocatorOptions(opt);
+    JitRuntime rt(&p);
+    runtimes++;
+    char b[320];
+    size_t n = 1 + r.below(4);
+    std::vector<void*> held;
+    for (size_t k = 0; k < n && !g_failed.load(); k++) {
+      if (r.chance(2, 3)) {
+        // a reference program of the x64 assembler (no absolute relocation, one section): the image at the function's address
+        // must be the bytes the main thread got single-threaded
+        uint64_t v;
+        do { v = r.below(g_variants); } while (v % 5 == 3);
+        const Generated& ref = g_reference[E_X64_ASM][v];
+        if (!ref.ok || ref.bytes.size() <= 8) continue;
+        CodeHolder code;
+        code.init(rt.environment(), rt.cpu_features());
+        x86::Assembler a(&code);
+        gen_x86(a.as<x86::Emitter>(), v, true, false);
+        void* fn = nullptr;
+        Error e = rt.add(&fn, &code);
+        if (e != Error::kOk || !fn) {
+          snprintf(b, sizeof b, "JitRuntime::add on a PRIVATE runtime (allocator options %#x) failed with error %d (%s)", opt, int(e), DebugUtils::error_as_string(e));
+          fail("private-runtime:add-failed", b + who());
+          break;
+        }
+        held.push_back(fn);
+        size_t len = ref.bytes.size() - 8;
+        adds_compared++;
+        bytes_verified += len;
+        if (code.code_size() != len || memcmp(fn, ref.bytes.data() + 8, len) != 0) {
+          size_t i = 0; const uint8_t* q = (const uint8_t*)fn;
+          while (i < len && i < code.code_size() && q[i] == ref.bytes[8 + i]) i++;
+          snprintf(b, sizeof b, "x64-assembler variant %llu added to a private runtime (allocator options %#x): code size %zu vs %zu single-threaded, image differs at offset %zu",
+                   (unsigned long long)v, opt, code.code_size(), len, i);
+          fail("private-runtime:code-differs", b + who());
+          break;
+        }
+      }
+      else {
+        int32_t kmul = int32_t(r.below(1000)) + 2;
+        CodeHolder code;
+        code.init(rt.environment(), rt.cpu_features());
+        x86::Compiler cc(&code);
+        gen_tiny_compiled(cc, kmul);
+        Error e = cc.finalize();
+        typedef int (*Fn)(int, int);
+        Fn fn = nullptr;
+        if (e == Error::kOk) e = rt.add(&fn, &code);
+        if (e != Error::kOk || !fn) {
+          snprintf(b, sizeof b, "compiling and adding a function to a PRIVATE runtime (allocator options %#x) failed with error %d (%s)", opt, int(e), DebugUtils::error_as_string(e));
+          fail("private-runtime:add-failed", b + who());
+          break;
+        }
+        held.push_back((void*)fn);
+        int x = int(r.below(10000)), y = int(r.below(10000));
+        int got = fn(x, y);
+        compiled_calls++;
+        if (got != x + y * kmul) {
+          snprintf(b, sizeof b, "a function compiled and added inside a thread returned %d for (%d,%d), expected %d", got, x, y, x + y * kmul);
+          fail("private-runtime:function-result", b + who());
+          break;
+        }
+      }
+      if (r.chance(1, 2)) sched_yield();
+      if (!held.empty() && r.chance(1, 2)) {
+        if (rt.release(held.back()) != Error::kOk) { fail("private-runtime:release-failed", "release() on a private runtime failed" + who()); break; }
+        held.pop_back();
+      }
+    }
+    // ~JitRuntime releases the rest
+  }
+
+  void run(size_t iters) {
+    for (size_t i = 0; i < iters && !g_failed.load(); i++) {
+      if (r.chance(3, 5)) use_allocator(); else use_runtime();
+    }
+  }
+};
+
+// -- sentinel threads: plain file descriptors that belong to the harness ------------------------------------------------
+
+struct Sentinel {
+  int id;
+  uint64_t rounds = 0;
+  explicit Sentinel(int i) : id(i) {}
+  void run(std::atomic<bool>& stop) {
+    struct stat ref {};
+    if (stat("/dev/null", &ref) != 0) return;
+    while (!stop.load(std::memory_order_relaxed)) {
+      int fd = open("/dev/null", O_RDONLY | O_CLOEXEC);
+      if (fd < 0) { fail("harness:sentinel-open", "a sentinel thread cannot open /dev/null"); return; }
+      if (fd < kFdTrack) g_fd_owner[fd].store(id + 1, std::memory_order_release);
+      for (int spin = 0; spin < 6; spin++) { timespec ts { 0, 15000 }; nanosleep(&ts, nullptr); }
+      struct stat st {};
+      int rc = fstat(fd, &st);
+      if (rc != 0 || !S_ISCHR(st.st_mode) || st.st_rdev != ref.st_rdev) {
+        char b[240];
+        snprintf(b, sizeof b, "descriptor %d, opened on /dev/null by a harness thread that never closed it, %s while AsmJit threads were running", fd,
+                 rc != 0 ? "is not open any more" : "refers to another file now");
+        fail("fd-table:foreign-descriptor-lost", b);
+        if (fd < kFdTrack) g_fd_owner[fd].store(0, std::memory_order_release);
+        return;
+      }
+      if (fd < kFdTrack) g_fd_owner[fd].store(0, std::memory_order_release);
+      __real_close(fd);
+      rounds++;
+    }
+  }
+};
+
 // -- quiescent checks (main thread, after joins) -------------------------------------------------------------
 
 static uint64_t g_h2_walks = 0, g_h2_walks_concurrent = 0, g_quiescent_checks = 0;
-static uint64_t g_max_blocks = 0, g_max_live = 0;
+static uint64_t g_max_blocks = 0, g_max_live = 0, g_empty_policy_checks = 0;
 
 static void quiescent_check(std::vector<Worker*>& workers, const char* when) {
   size_t live = 0, live_bytes = 0, fns = 0;
@@ -1027,9 +1639,28 @@ static void quiescent_check(std::vector<Worker*>& workers, const char* when) {
   g_h2_walks++;
   if (rc) { fail("h2-invariant-" + std::to_string(rc) + ":quiescent", std::string("runtime allocator bookkeeping inconsistent after all threads were joined (") + when + "): " + msg); return; }
   JitAllocator::Statistics rs = S.rt->allocator().statistics();
-  if (rs.allocation_count() != fns || info[3] != fns) {
-    snprintf(b, sizeof b, "after joining all threads (%s): runtime allocator counts %zu allocations (stop bits: %zu), the threads hold %zu functions", when, rs.allocation_count(), info[3], fns);
+  size_t fns_all = fns + (S.anchor ? 1 : 0);
+  if (rs.allocation_count() != fns_all || info[3] != fns_all) {
+    snprintf(b, sizeof b, "after joining all threads (%s): runtime allocator counts %zu allocations (stop bits: %zu), the threads hold %zu functions", when, rs.allocation_count(), info[3], fns_all);
     fail("quiescent:rt-allocation-count", b);
+  }
+  // empty-block policy (C09 clause, under concurrency): when nothing is live no more than one empty block per pool is
+  // retained, none with kImmediateRelease
+  if (live == 0) {
+    size_t allowed = S.imm ? 0 : S.pools;
+    g_empty_policy_checks++;
+    if (st.block_count() > allowed) {
+      snprintf(b, sizeof b, "after joining all threads (%s): nothing is live but the allocator retains %zu blocks (policy allows %zu)", when, st.block_count(), allowed);
+      fail("quiescent:empty-blocks-retained", b);
+    }
+  }
+  if (fns_all == 0) {
+    size_t allowed = S.rt_imm ? 0 : S.rt_pools;
+    g_empty_policy_checks++;
+    if (rs.block_count() > allowed) {
+      snprintf(b, sizeof b, "after joining all threads (%s): no function is live but the runtime's allocator retains %zu blocks (policy allows %zu)", when, rs.block_count(), allowed);
+      fail("quiescent:empty-blocks-retained", b);
+    }
   }
 }
 
@@ -1085,6 +1716,11 @@ int main(int argc, char** argv) {
   size_t ops = args.u64("ops", 2000);
   size_t emit_threads = args.u64("emit-threads", 3);
   size_t emit_iters = args.u64("emit-iters", 60);
+  size_t private_threads = args.u64("private-threads", 3);
+  size_t private_iters = args.u64("private-iters", 40);
+  size_t reader_threads = args.u64("reader-threads", 2);
+  size_t sentinel_threads = args.u64("sentinel-threads", 2);
+  cfg.fill_pattern = (uint32_t)args.u64("fill-pattern", 0);
   g_variants = args.u64("variants", 24);
   bool no_warmup = args.has("no-warmup");   // debugging aid only: shows what the precondition protects against
 
@@ -1107,6 +1743,7 @@ int main(int argc, char** argv) {
     {
       JitAllocator plain;
       JitAllocator::Span s;
+      S.default_pattern = plain.fill_pattern();
       if (plain.alloc(Out(s), 100) == Error::kOk) { warm += s.size(); plain.release(s.rx()); }
     }
     {
@@ -1145,6 +1782,7 @@ int main(int argc, char** argv) {
   ap.options = JitAllocatorOptions(cfg.options);
   ap.granularity = cfg.granularity;
   ap.block_size = cfg.block_size;
+  ap.fill_pattern = cfg.fill_pattern;
   JitAllocator::CreateParams rp;
   rp.options = JitAllocatorOptions(cfg.rt_options);
   rp.block_size = cfg.block_size;
@@ -1156,7 +1794,27 @@ int main(int argc, char** argv) {
   S.block_size = S.alloc->block_size();
   S.fill = S.alloc->has_option(JitAllocatorOptions::kFillUnusedMemory);
   S.dual = S.alloc->has_option(JitAllocatorOptions::kUseDualMapping);
-  S.pattern = S.alloc->fill_pattern();
+  S.imm = S.alloc->has_option(JitAllocatorOptions::kImmediateRelease);
+  S.rt_imm = S.rt->allocator().has_option(JitAllocatorOptions::kImmediateRelease);
+  S.pools = S.alloc->has_option(JitAllocatorOptions::kUseMultiplePools) ? 3 : 1;
+  S.rt_pools = S.rt->allocator().has_option(JitAllocatorOptions::kUseMultiplePools) ? 3 : 1;
+  // the pattern memory is compared with is the REQUESTED one, not the one the accessor reports
+  if (no_warmup) { JitAllocator d; S.default_pattern = d.fill_pattern(); }
+  S.pattern = (cfg.options & 0x10000000u) ? cfg.fill_pattern : S.default_pattern;
+  if (S.alloc->fill_pattern() != S.pattern) {
+    char b[160];
+    snprintf(b, sizeof b, "fill_pattern() reports %08x, requested %08x (options %#x)", S.alloc->fill_pattern(), S.pattern, cfg.options);
+    fail((cfg.options & 0x10000000u) ? "fill-pattern-accessor:custom-not-honoured" : "fill-pattern-accessor:not-default", b);
+  }
+  {
+    // anchor: a function in the runtime's memory that stays for the whole run
+    CodeHolder code;
+    code.init(S.rt->environment(), S.rt->cpu_features());
+    x86::Assembler a(&code);
+    a.mov(x86::eax, 1);
+    a.ret();
+    if (S.rt->add(&S.anchor, &code) != Error::kOk) S.anchor = nullptr;
+  }
 
   int max_threads = 0;
   for (int n : phases) max_threads = std::max(max_threads, n);
@@ -1165,6 +1823,12 @@ int main(int argc, char** argv) {
   for (int t = 0; t < max_threads; t++) workers.push_back(new Worker(t, seeder.next()));
   std::vector<Emitter*> emitters;
   for (size_t t = 0; t < emit_threads; t++) emitters.push_back(new Emitter(int(100 + t), seeder.next()));
+  std::vector<Private*> privates;
+  for (size_t t = 0; t < private_threads; t++) privates.push_back(new Private(int(150 + t), seeder.next()));
+  std::vector<Reader*> readers;
+  for (size_t t = 0; t < reader_threads; t++) readers.push_back(new Reader(int(200 + t), seeder.next()));
+  std::vector<Sentinel*> sentinels;
+  for (size_t t = 0; t < sentinel_threads; t++) sentinels.push_back(new Sentinel(int(t)));
   std::vector<OpRec> walker_log;
   Counters walker_c;
 
@@ -1189,6 +1853,10 @@ int main(int argc, char** argv) {
         emitters[t]->run(emit_iters);
       });
     }
+    std::vector<std::thread> pth, rth, sth;
+    for (size_t t = 0; t < privates.size(); t++) pth.emplace_back([&, t]() { while (!go.load()) sched_yield(); privates[t]->run(private_iters); });
+    for (size_t t = 0; t < readers.size(); t++) rth.emplace_back([&, t]() { while (!go.load()) sched_yield(); readers[t]->run(stop); });
+    for (size_t t = 0; t < sentinels.size(); t++) sth.emplace_back([&, t]() { while (!go.load()) sched_yield(); sentinels[t]->run(stop); });
     std::thread walker([&]() {
       Rng wr(cfg.seed + ph);
       while (!go.load()) sched_yield();
@@ -1210,17 +1878,23 @@ int main(int argc, char** argv) {
       }
     });
     while (ready.load() < n) sched_yield();
+    g_concurrent.store(true);
     go.store(true);
     for (auto& t : th) t.join();
+    for (auto& t : pth) t.join();          // readers, sentinels and the walker keep running while the private threads finish
     stop.store(true);
     walker.join();
+    for (auto& t : rth) t.join();
+    for (auto& t : sth) t.join();
     for (auto& t : eth) t.join();
+    g_concurrent.store(false);
     uint64_t pt1 = now_ns();
     quiescent_check(workers, ("phase " + std::to_string(ph) + " with " + std::to_string(n) + " threads").c_str());
     {
       // overlap statistics of this phase (logs are thread-local buffers, merged after the joins)
       std::vector<OpRec> all;
       for (Worker* w : workers) { all.insert(all.end(), w->log.begin(), w->log.end()); w->log.clear(); }
+      for (Reader* rd : readers) { all.insert(all.end(), rd->log.begin(), rd->log.end()); rd->log.clear(); }
       all.insert(all.end(), walker_log.begin(), walker_log.end());
       walker_log.clear();
       merge_logs(all);
@@ -1242,22 +1916,50 @@ int main(int argc, char** argv) {
       g_exchange.pop_back();
       workers[0]->do_release(workers[0]->live.size() - 1);
     }
+    if (S.anchor) { if (S.rt->_release(S.anchor) != Error::kOk) fail("rt-release-failed", "release of the anchor function failed"); S.anchor = nullptr; }
     quiescent_check(workers, "after drain");
     if (!g_rx.s.empty() || !g_rw.s.empty()) fail("harness:interval-set-not-empty", "the harness interval set is not empty after the drain");
   }
 
-  // 5. summary
+  // 5. every allocator is destroyed: nothing AsmJit mapped may still be mapped
+  for (Worker* w : workers) { w->live.clear(); w->fns.clear(); }
+  delete S.rt; S.rt = nullptr;
+  delete S.alloc; S.alloc = nullptr;
+  uint64_t leaked_regions = 0, leaked_bytes = 0;
+  int maps_tracked = 0;
+#if defined(VERIF_TRACK_MAPS)
+  maps_tracked = 1;
+  {
+    std::lock_guard<std::mutex> g(g_map_mutex);
+    for (auto& kv : g_maps) { leaked_regions++; leaked_bytes += kv.second; }
+  }
+  if (leaked_regions && !g_failed.load()) {
+    char b[240];
+    snprintf(b, sizeof b, "every JitAllocator / JitRuntime of the process is destroyed, but %llu region(s) with %llu bytes that AsmJit mapped were never unmapped",
+             (unsigned long long)leaked_regions, (unsigned long long)leaked_bytes);
+    fail("address-space:mappings-leaked", b);
+  }
+#endif
+
+  // 6. summary
   Counters tot;
   for (Worker* w : workers) {
     for (int k = 0; k < OP_COUNT; k++) tot.ops[k] += w->c.ops[k];
     tot.bytes_verified += w->c.bytes_verified; tot.fill_checked += w->c.fill_checked; tot.fn_calls += w->c.fn_calls;
     tot.exchanged += w->c.exchanged; tot.yields += w->c.yields; tot.sleeps += w->c.sleeps;
+    tot.rt_near_call_adds += w->c.rt_near_call_adds; tot.rt_real_shrinks += w->c.rt_real_shrinks;
   }
   for (int k = 0; k < OP_COUNT; k++) tot.ops[k] += walker_c.ops[k];
   for (Emitter* e : emitters) {
     for (int k = 0; k < E_KINDS; k++) tot.emit[k] += e->c.emit[k];
     tot.emit_log_compared += e->c.emit_log_compared;
+    tot.emit_validated += e->c.emit_validated; tot.emit_api_probes += e->c.emit_api_probes; tot.emit_with_features += e->c.emit_with_features;
+    tot.emit_multi_section += e->c.emit_multi_section; tot.emit_const_pool += e->c.emit_const_pool;
   }
+  uint64_t pv[8] {}, rd[3] {}, sentinel_rounds = 0;
+  for (Private* x : privates) { pv[0] += x->allocators; pv[1] += x->runtimes; pv[2] += x->allocs; pv[3] += x->dual_allocs; pv[4] += x->blocks_cycled; pv[5] += x->adds_compared; pv[6] += x->compiled_calls; pv[7] += x->bytes_verified; }
+  for (Reader* x : readers) { rd[0] += x->queries; rd[1] += x->query_hits; rd[2] += x->stats; }
+  for (Sentinel* x : sentinels) sentinel_rounds += x->rounds;
 
   uint64_t lock_acq = 0;
   int lock_counted = 0;
@@ -1298,13 +2000,32 @@ int main(int argc, char** argv) {
   num("lock_acquisitions", lock_acq);
   num("lock_counted", lock_counted);
   num("warm", warm != 0);
+  num("private_allocators", pv[0]); num("private_runtimes", pv[1]); num("private_allocs", pv[2]); num("private_dual_allocs", pv[3]);
+  num("private_blocks_cycled", pv[4]); num("private_adds_compared", pv[5]); num("private_compiled_calls", pv[6]); num("private_bytes_verified", pv[7]);
+  num("reader_queries", rd[0]); num("reader_query_hits", rd[1]); num("reader_statistics", rd[2]);
+  num("sentinel_rounds", sentinel_rounds);
+  num("closes_seen", g_closes_seen.load()); num("closes_seen_concurrent", g_closes_seen_concurrent.load());
+  num("maps_tracked", maps_tracked); num("maps_made", g_maps_made.load()); num("unmaps_made", g_unmaps_made.load());
+  num("rt_near_call_adds", tot.rt_near_call_adds); num("rt_real_shrinks", tot.rt_real_shrinks);
+  num("emit_validated", tot.emit_validated); num("emit_api_probes", tot.emit_api_probes); num("emit_with_host_features", tot.emit_with_features);
+  num("emit_multi_section", tot.emit_multi_section); num("emit_const_pool", tot.emit_const_pool);
+  num("empty_policy_checks", g_empty_policy_checks);
+  num("custom_pattern", (cfg.options & 0x10000000u) ? 1 : 0);
+  num("intervals_enabled",
+#if defined(__SANITIZE_THREAD__)
+      0
+#else
+      1
+#endif
+  );
   out += "}";
   printf("%s\n", out.c_str());
   fflush(stdout);
 
   for (Worker* w : workers) delete w;
   for (Emitter* e : emitters) delete e;
-  delete S.rt;
-  delete S.alloc;
+  for (Private* x : privates) delete x;
+  for (Reader* x : readers) delete x;
+  for (Sentinel* x : sentinels) delete x;
   return 0;
 }
